@@ -515,6 +515,35 @@ def store_pair(ctx: Ctx) -> None:
         )
 
 
+@rule("STORE-NOFUSE-1", props=["C11", "C02"], floor=3)
+def store_nofuse(ctx: Ctx) -> None:
+    """the operation that writes a user's target is marked not fusable with successors (a
+    fused-away producer never materialises the target)"""
+    repo = ctx.repo
+    f = repo.get(f"{A.OPS}._store_array")
+    fl, cfg = flow_of(repo, f), cfg_of(f)
+    n = 0
+    for c in f.own_nodes():
+        if isinstance(c, ast.Call) and (kwarg(c, "target_store") is not None or kwarg(c, "target_stores") is not None):
+            n += 1
+            v = kwarg(c, "fusable_with_successors")
+            ok = isinstance(v, ast.Constant) and v.value is False
+            ctx.ob(f, c, ok, f"`{unparse(c.func)}` writing the target passes fusable_with_successors=False", sel=f"nofuse:{unparse(c.func)}")
+    # in-place branch: whoever gets its target_array replaced is also marked non-fusable
+    retargets = [a for a in f.own_nodes() if isinstance(a, ast.Assign) and isinstance(a.targets[0], ast.Attribute) and a.targets[0].attr == "target_array"]
+    for a in retargets:
+        n += 1
+        recv = unparse(a.targets[0].value)
+        blk_ok = False
+        from .runtime import _block_of
+
+        for st in _block_of(f, a):
+            if isinstance(st, ast.Assign) and isinstance(st.targets[0], ast.Attribute) and st.targets[0].attr == "fusable_with_successors" and unparse(st.targets[0].value) == recv and isinstance(st.value, ast.Constant) and st.value.value is False:
+                blk_ok = True
+        ctx.ob(f, a, blk_ok, f"the operation whose target is replaced (`{recv}`) is marked fusable_with_successors = False on the same object" + ("" if blk_ok else " — it is not: the optimiser may fuse the producer into a consumer and the target is never written"), sel="nofuse:in-place")
+    ctx.need(n >= 3, "store sinks not found")
+
+
 @rule("STORE-GUARD-1", props=["C11"], floor=5)
 def store_guard(ctx: Ctx) -> None:
     """unsafe store requests are rejected with ValueError at build time: length mismatches,
